@@ -109,6 +109,8 @@ def gen_bam(rng, in_pre=True):
                 mi = rng.choice([k for k in range(len(contigs)) if k != ci])
                 m['contig'], mln = contigs[mi], lens[mi]
                 m['site'] = rng.randrange(mln)
+                if rng.random() < 0.8:                                # aligners never flag such a pair as proper
+                    r['proper'] = m['proper'] = False
             ml = min(rlen, mln)
             m['rstart'] = max(0, min(mln - ml, r['rstart'] + rng.randint(0, 20)))
             m['rend'] = m['rstart'] + ml
